@@ -89,6 +89,12 @@ STRENGTHENED = [
     ("seeded/C08-h", "and/or typed by its operands when they agree", "C08: and/or over operands that are not bool (two numbers, a number and anything)"),
     ("seeded/C09-h", "only a literal-constant index unwraps a typed sequence ([-1] is a UnaryOp)", "C09: receivers picked out of a typed sequence by a constant index 0 / 1 / -1 / -2"),
     ("seeded/C10-h", "conditional with a numeric true branch and an untyped false branch refused (order dependent)", "C10 classifier: a branch about which nothing can be known on an untyped stream (variable, attribute chain, method call on one) is compatible with itself and with numbers, in either order: must pass"),
+    ("seeded/C13-h", "captured-variable lookup through ChainMap(globals, nonlocals): a module global hides the closure variable", "C13 capture module: a module global spelled like the closure variable (C04 catches the change unchanged through its D23 witness)"),
+    ("seeded/C14-h", "nested Select whose written source is a bare reference is no longer merged with the Select it resolves to", "typed generator: producers may package a SEQUENCE of packages built by a nested Select (C14, C02, C18); First() is not applied to sequences of sequences of packages"),
+    ("seeded/C16-h", "QMetaData decides 'unchanged' on the text form of the values", "C16 value pool: values that print alike ('1' next to 1, 'True' next to True, '[0]' next to [0])"),
+    ("seeded/C17-h", "traversal treats ast.arguments as a leaf: operator calls in default values of lambda parameters are not rewritten", "C17: lambdas with a defaulted second parameter (positional / keyword-only), two more exhaustive positions"),
+    ("seeded/C19-h", "fold parameters renamed one level too shallow when the sequence mentions v / acc", "C19: sequences that mention a variable of an enclosing lambda (named v / w / acc)"),
+    ("seeded/C20-h", "structure text leaves out None fields: x[1:], x[:1], x[::1] collide", "untyped grammar: slices with parts left out (C10, C20); C20 edits: the parts of a slice rotated / swapped"),
     ("seeded/C08-c", "generic subclass with more type parameters than its base uses", "C08 skeleton: Tag(Box[K], Generic[K,V]), Tag2(Box[V], ...), Swap(Pair[U,T], ...), HalfPair(Pair[T,int]), It2(Iterable[V], ...), TagInts(Tag[int,V]); class names taken from typing. This extension also exposed the genuine defects D29 and D30"),
 ]
 
